@@ -1,7 +1,7 @@
 #!/bin/sh
 # tools/process_wt.sh <worktree>: confirm both delivered changes (build, demo fails with / passes without; suite as reported by the
 # author) and run the quick check of each change's property against it.  Output: <worktree>/mutations/process.log
-wt="$1"
+wt="$1"; mkdir -p /tmp/mut
 cd /verif
 for m in m1 m2; do
   [ -f "$wt/mutations/$m.diff" ] && [ -f "$wt/mutations/$m.json" ] || { echo "$m: not delivered"; continue; }
